@@ -1164,6 +1164,7 @@ func (a *FuncAn) run() {
 		a.rpo = append(a.rpo, post[i])
 	}
 	a.computeCanon()
+	a.purify()
 	// pre-evaluate every integer / sequence value so that lemmas do not depend on query order
 	for _, b := range a.rpo {
 		for _, ins := range b.Instrs {
